@@ -79,7 +79,7 @@ fn gen_hide_case(rng: &mut Rng, sw: &Swarm, forced_attr: u16, sm: &mut Rng) -> H
     }
     let pl = spec_payload(&avp).len();
     let room = 1008 - 2 - pl;
-    let lp_len = match rng.below(8) {
+    let mut lp_len = match rng.below(8) {
         0 => 0,
         1 => {
             // land on residue 0 / 1 / 15
@@ -100,7 +100,18 @@ fn gen_hide_case(rng: &mut Rng, sw: &Swarm, forced_attr: u16, sm: &mut Rng) -> H
     let apb = rng.bytes(16);
     let mut ap = [0u8; 16];
     ap.copy_from_slice(&apb);
-    let secret = rng.bytes(secret_len);
+    let mut secret = rng.bytes(secret_len);
+    // now and then a secret built from a string constant of the code under
+    // test, alone or followed by a few hexadecimal / decimal digits
+    if rng.chance(1, 24) {
+        if let Some(mut t) = crate::dict::pick_str(rng, 12, false) {
+            let alphabet: &[u8] = if rng.bool() { b"0123456789abcdef" } else { b"0123456789" };
+            for _ in 0..rng.urange(0, 9) {
+                t.push(*rng.pick(alphabet));
+            }
+            secret = t;
+        }
+    }
     // ciphertext blocks with special values: a value whose plaintext makes
     // a chunk of the hidden value come out all zero, all ones, or equal to
     // the chunk before it (an "empty" sentinel, a chunk compared with its
@@ -120,6 +131,18 @@ fn gen_hide_case(rng: &mut Rng, sw: &Swarm, forced_attr: u16, sm: &mut Rng) -> H
                 force_cipher_block(avp.attr, p, &secret, &rvb, conv, b, target);
             }
         }
+    }
+    // a key stream whose first chunk has a zero word (found by search)
+    let mut rvb = rvb;
+    let mut secret = secret;
+    if rng.chance(1, 48) {
+        let (attr, s, rv, _) = *rng.pick(crate::collisions::ZERO_WORD_KEYSTREAMS);
+        let mut sw3 = sw.clone();
+        sw3.size = SizeRegime::Typical;
+        avp = gen_avp_of(rng, &sw3, attr);
+        lp_len = lp_len.min(1006usize.saturating_sub(spec_payload(&avp).len()));
+        secret = s.to_vec();
+        rvb = rv.to_vec();
     }
     HideCase {
         avp,
@@ -558,7 +581,21 @@ fn exec_c12(case: &Case12, obs: &mut Obs) -> Result<(), Failure> {
                 Some(Ok(_)) => {
                     return Err(Failure::new("C12", "hidden-value-equals-rfc", "not-hidden", "hide of a non-hidden AVP did not return a hidden AVP".into()))
                 }
-                _ => return Ok(()), // C11 / C07 judge refusals
+                Some(Err(e)) => {
+                    // the quantifier is "forall a, s, rv, lp, ap": a value
+                    // that fits the construction has a hidden value
+                    let fits = 2 + spec_payload(&c.avp).len() + c.lp.len() <= 1008 + 14 && 6 + spec_payload(&c.avp).len() <= 1023;
+                    if fits && c.lp.len() < 1000 {
+                        return Err(Failure::new(
+                            "C12",
+                            "hide-returns-the-rfc-value",
+                            &block_class(c),
+                            format!("hide of {:?} (secret {} octets, lp {} octets) does not return: {}", c.avp, c.secret.len(), c.lp.len(), e.text()),
+                        ));
+                    }
+                    return Ok(());
+                }
+                None => return Ok(()),
             };
             hide_probes(c, obs);
             // what was hidden is the crate value; express it in model terms
@@ -807,6 +844,24 @@ impl Scenario for C12 {
             }
             ctx.check::<C12>(&case);
         }
+        // optional text that is present but empty (Some("") is a value a
+        // caller can build; it has the same octets as None)
+        if ctx.run % 8 == 3 {
+            let attr = if wl.bool() { 1u16 } else { 12 };
+            let mut hc = gen_hide_case(&mut wl, &sw, attr, &mut sm);
+            match &mut hc.avp.val {
+                Val::Result { error, .. } => {
+                    *error = Some(ResErr {
+                        et: wl.range(0, 8) as u16,
+                        msg: Some(Vec::new()),
+                    })
+                }
+                Val::Q931 { advisory, .. } => *advisory = Some(Vec::new()),
+                _ => {}
+            }
+            ctx.obs.count("probe:present-but-empty-optional-text");
+            ctx.check::<C12>(&Case12::Hide(hc));
+        }
         // a hidden value of 2^16 chunks and a little more (a megabyte of
         // length padding: nothing bounds the padding of a value that is
         // revealed without having been on the wire)
@@ -1048,7 +1103,7 @@ thread_local! {
     static CONV13: std::cell::Cell<Option<Option<LenConv>>> = const { std::cell::Cell::new(None) };
 }
 
-fn calibrated_conv() -> Option<LenConv> {
+pub fn calibrated_conv() -> Option<LenConv> {
     if let Some(c) = CONV13.with(|x| x.get()) {
         return c;
     }
